@@ -33,7 +33,7 @@ theorem version_lt_of_later {A B : List Ev} (h : VerOk (A ++ B)) {a b : Ev} (ha 
   obtain ⟨B1, B2, rfl⟩ := List.append_of_mem hb
   have e : A ++ (B1 ++ b :: B2) = ((A ++ B1) ++ [b]) ++ B2 := by simp
   rw [e] at h
-  have h1 := verOk_prefix h
+  have h1 := conc_verOk_prefix h
   obtain ⟨h2, h3⟩ := (verOk_snoc _ _).1 h1
   obtain ⟨v', h4, h5⟩ := latestOf_ge_mem h2 (List.mem_append_left B1 ha)
   rw [← hs, h4] at h3
@@ -46,7 +46,7 @@ theorem seq_lt_of_later {A B : List Ev} (h : SeqOk (A ++ B)) {a b : Ev} (ha : a 
   obtain ⟨B1, B2, rfl⟩ := List.append_of_mem hb
   have e : A ++ (B1 ++ b :: B2) = ((A ++ B1) ++ [b]) ++ B2 := by simp
   rw [e] at h
-  have h1 := seqOk_prefix h
+  have h1 := conc_seqOk_prefix h
   obtain ⟨h2, h3⟩ := (seqOk_snoc _ _).1 h1
   obtain ⟨s', h4, h5⟩ := seqOf_ge_mem h2 (List.mem_append_left B1 ha)
   rw [nextSeqOf_seqOf, ← hs, h4] at h3
